@@ -854,6 +854,47 @@ EDGE_WRITERS = {
 MUTATORS = {"append", "extend", "insert", "remove", "pop", "clear", "sort", "reverse"}
 
 
+def _flows_to_own_store(n, f, pm, depth=4, _seen=None):
+    """the value of expression node n (inside function f) reaches an argument of super().__setattr__ / super().__setitem__:
+    directly, through a local name, through f's return value into its callers (self.f(...)), or as an argument of a
+    same-class method that stores its parameter"""
+    seen = set() if _seen is None else _seen
+    if id(n) in seen or depth < 0:
+        return False
+    seen.add(id(n))
+    par = getattr(n, "_parent", None)
+    if isinstance(par, ast.keyword):
+        par = getattr(par, "_parent", None)
+    if isinstance(par, ast.Call) and n is not par.func:
+        if norm(par.func) in ("super().__setattr__", "super().__setitem__"):
+            return True
+        if isinstance(par.func, ast.Attribute) and isinstance(par.func.value, ast.Name) and par.func.value.id == "self":
+            cls = _enclosing(f)[0].split(".")[0]
+            g = pm.find_method(cls, par.func.attr)[1] if cls in pm.classes else None
+            if g is not None:
+                ps = [a.arg for a in g.args.args][1:]
+                kw = next((k.arg for k in par.keywords if k.value is n), None)
+                pname = kw if kw else (ps[par.args.index(n)] if n in par.args and par.args.index(n) < len(ps) else None)
+                if pname:
+                    return any(_flows_to_own_store(x, g, pm, depth - 1, seen) for x in ast.walk(g)
+                               if isinstance(x, ast.Name) and x.id == pname and isinstance(x.ctx, ast.Load))
+        return False
+    if isinstance(par, ast.Assign) and par.value is n:
+        names = {t.id for t in par.targets if isinstance(t, ast.Name)}
+        return any(_flows_to_own_store(x, f, pm, depth, seen) for x in ast.walk(f)
+                   if isinstance(x, ast.Name) and x.id in names and isinstance(x.ctx, ast.Load))
+    if isinstance(par, ast.Return):
+        for mod, (rel, tree, src) in pm.modules.items():
+            for c in ast.walk(tree):
+                if isinstance(c, ast.Call) and isinstance(c.func, ast.Attribute) and c.func.attr == f.name \
+                        and isinstance(c.func.value, ast.Name) and c.func.value.id == "self":
+                    cf = _enclosing(c)[1]
+                    if cf is not None and _flows_to_own_store(c, cf, pm, depth - 1, seen):
+                        return True
+        return False
+    return False
+
+
 @rule("R-EDGE")
 def r_edge(E):
     pm = E.pm
@@ -979,6 +1020,41 @@ def r_edge(E):
                     f"as ancestor, so it has no children and editing it recomputes nothing", pm.path_of(cn), hk.lineno,
                     f"{cn}.return_direct_ancestors_with_id_to_child"))
                 break
+    # a wrapper / value constructed *with* its container (the constructor writes the bookkeeping field from a parameter)
+    # is registered as a holder at once: the function that builds it must be the container's own storing primitive and
+    # store that very object (super().__setattr__ / super().__setitem__); handed to anything else — the public
+    # __setattr__ wraps again — it stays registered on the target as a holder that nothing ever detaches
+    from ..astutil import _bind_call
+    born = {}
+    for cn in sorted(pm.classes):
+        ini_c = next((m for m in pm.own_methods(cn) if m.name == "__init__"), None)
+        if ini_c is None:
+            continue
+        ps = {a.arg for a in ini_c.args.args[1:]}
+        for n in ast.walk(ini_c):
+            if isinstance(n, ast.Assign) and isinstance(n.value, ast.Name) and n.value.id in ps and any(
+                    isinstance(t, ast.Attribute) and t.attr == "modeling_obj_container" and norm(t.value) == "self"
+                    for t in n.targets):
+                born[cn] = (ini_c, n.value.id)
+    for mod, (rel, tree, src) in sorted(pm.modules.items()):
+        for n in ast.walk(tree):
+            if not (isinstance(n, ast.Call) and isinstance(n.func, ast.Name) and n.func.id in born):
+                continue
+            ini_c, pname = born[n.func.id]
+            given = _bind_call(ini_c, n).get(pname)
+            if given is None or (isinstance(given, ast.Constant) and given.value is None):
+                continue
+            res.instances += 1
+            q, f = _enclosing(n)
+            stored = f is not None and _flows_to_own_store(n, f, pm)
+            if not stored:
+                res.findings.append(Finding(
+                    "R-EDGE", f"{q} builds an attached {n.func.id} it does not store",
+                    f"{q} constructs `{norm(n)[:80]}` with its container filled in — the constructor registers it on the "
+                    f"wrapped object as a holder — but does not store that object itself (super().__setattr__ / "
+                    f"super().__setitem__): whatever stores the link wraps the target again, and the first wrapper remains a "
+                    f"holder that no later edit detaches (phantom reverse link: wrong jobs / usage patterns / systems, "
+                    f"objects that can no longer be deleted)", rel, n.lineno, q))
     # the ancestor list built at construction takes both parents
     rel, ini = pm.find_function(EB, "ExplainableObject.__init__")
     res.instances += 1
@@ -993,7 +1069,7 @@ def r_edge(E):
         res.findings.append(Finding("R-EDGE", "ExplainableObject.__init__ ancestors",
                                     "the constructor no longer collects the ancestors of both parents", rel, ini.lineno,
                                     "ExplainableObject.__init__"))
-    res.floor = 12
+    res.floor = 14
     return res
 
 
